@@ -115,7 +115,9 @@ fn record(prop: &str, fam: &str, n: usize, seed: u64, size: usize, len: usize, k
         let kind = r.pick(kinds).clone();
         let ety = r.pick(etys).clone();
         let mode = if r.chance(1, 2) { "E" } else { "C" };
-        let cj = json!({"g": g, "inp": inp, "kind": kind, "ety": ety, "mode": mode});
+        // C13: a history of up to 5 further parses through the same parser value
+        let more: Vec<Vec<&str>> = if prop == "C13" { (0..1 + r.below(5)).map(|_| gen::gen_input(&mut r, &f, len, fam == "nst")).collect() } else { vec![] };
+        let cj = json!({"g": g, "inp": inp, "kind": kind, "ety": ety, "mode": mode, "more": more});
         let c = run::Case::from_json(&cj)?;
         let o = match run::run_case(&c) {
             Ok(o) => o,
@@ -125,9 +127,13 @@ fn record(prop: &str, fam: &str, n: usize, seed: u64, size: usize, len: usize, k
         // the real-only assertions of the property (parse vs check, erasure, cross-kind, drops, ...)
         let all = |kind: &str, ety: &str, mode: &str| run::run_case_as(&c, kind, ety, mode).ok();
         let assertion = replay::real_asserts(prop, &c, &o, &all);
-        let rec = json!({"g": g, "inp": inp, "kind": kind, "ety": ety, "mode": mode, "assertion": assertion,
+        let mut rec = json!({"g": g, "inp": inp, "kind": kind, "ety": ety, "mode": mode, "assertion": assertion,
             "res": {"ok": oj["ok"], "out": oj["out"], "errs": oj["errs"], "panic": oj["panic"], "insp": oj["insp"], "leaked": oj["leaked"]},
             "obs": oj["obs"], "mask": mask.to_json()});
+        if prop == "C13" {
+            rec["more"] = json!(more);
+            rec["past"] = oj["past"].clone();
+        }
         writeln!(w, "{}", rec).map_err(|e| e.to_string())?;
         k += 1;
     }
